@@ -143,4 +143,12 @@ theorem fit_remainder_args_in_range (u : M2 ℝ) :
   have h2 := Complex.arg_le_pi ⟨u.a, u.c⟩
   have := Real.pi_pos
   refine ⟨⟨by linarith, by linarith⟩, ⟨by linarith, by linarith⟩⟩
+/-- the translated extraction part of `fit_aberrations_from_shifts` is the hand-written `fitExtract` -/
+theorem fitExtractTranslated_eq (u p : M2 ℝ) : fitExtractTranslated u p = fitExtract u p := by
+  unfold fitExtractTranslated fitExtract
+  simp only [fit_aberrations_from_shifts_extract, lookupD, String.reduceEq, if_true, if_false]
+  num_real
+  push_cast
+  split_ifs <;> rfl
+
 end QuantemModel.Aberration
